@@ -101,11 +101,15 @@ Sites == <<
   (* 40 a dict with unhashable (list) values as argument value *)
         Let("t", Apply(Star(Seq2(AnyAB, Star(Str(<<comma>>)))), Py(<<"fn", "dict">>)),
             Right(Str(<<lpar>>), Call("Val", <<P(Ref("t"))>>))),
-  (* 41, 42 (bytes mode): byte literals as arguments, used as parsers inside the template *)
+  (* 41 same template, same position, equal positional and DIFFERENT keyword arguments *)
+        Ch2(Call("Cnt", <<P(PyInt(1)), Kw("p", A1)>>), Call("Cnt", <<P(PyInt(1)), Kw("p", B1)>>)),
+  (* 42 ... all arguments by keyword, under lookahead first *)
+        Seq2(Expect(Call("Cnt", <<Kw("n", PyInt(1)), Kw("p", Ch2(A1, B1))>>)), Call("Cnt", <<Kw("n", PyInt(2)), Kw("p", Ch2(A1, B1))>>)),
+  (* 43, 44 (bytes mode): byte literals as arguments, used as parsers inside the template *)
         Call("Wrap", <<P(<<"byte", a>>)>>),
         Seq2(Call("Twice", <<Kw("p", <<"byte", b>>)>>), Opt(Call("Wrap", <<P(Ch2(<<"byte", a>>, B1))>>)))
 >>
-BytesSites == {41, 42}
+BytesSites == {43, 44}        \* (positions in the sequence above: the two bytes-mode sites come last)
 
 Grammar(i) == [rules |-> ("start" :> Rule(Sites[i])) @@ Templates, ign |-> <<>>, start |-> "start"]
 
